@@ -15,6 +15,7 @@ type vCfgAppend struct {
 var vCfgAppends []vCfgAppend
 
 func vWatchConfigAppends(r *Raft, l *leader) {
+	vWatchR, vCommitted0 = r, r.configs.Committed.clone()
 	vAppendHook = func(b []byte) {
 		e := &entry{}
 		if err := e.decode(bytes.NewReader(b)); err != nil {
@@ -36,8 +37,31 @@ func vWatchConfigAppends(r *Raft, l *leader) {
 	}
 }
 
+var (
+	vWatchR     *Raft
+	vCommitted0 Config // deep copy of the committed configuration when watching started
+)
+
+// vSameMembership: same nodes with the same voter flags and pending actions.
+func vSameMembership(a, b Config) bool {
+	if len(a.Nodes) != len(b.Nodes) {
+		return false
+	}
+	same := true
+	for id, x := range a.Nodes {
+		y, ok := b.Nodes[id]
+		same = vAnd(same, vAnd(ok, vAnd(x.Voter == y.Voter, x.Action == y.Action)))
+	}
+	return same
+}
+
 // vCheckConfigAppends asserts the C08 obligations for every configuration appended while watching.
 func vCheckConfigAppends(tag string, checkReady bool) {
+	// a configuration is identified by its index: as long as the committed configuration keeps its index its
+	// membership is what it was (a pending change must be built on a copy, never written into the shared map)
+	if vWatchR != nil && vWatchR.configs.Committed.Index == vCommitted0.Index {
+		vAssert(vSameMembership(vWatchR.configs.Committed, vCommitted0), tag+"-committed-configuration-content-unchanged-while-its-index-is")
+	}
 	for _, ap := range vCfgAppends {
 		vReach("config-appended")
 		var diff, voters, plain uint64
@@ -230,5 +254,41 @@ func VH_C17_pending_action_started() {
 		vAssert(!still || !nn.Voter, "P5-the-action-is-the-pending-one")
 	}
 	vCheckConfigAppends("P5", true)
+	vReach("end")
+}
+
+//verif:check C17,C16,C08 stubs=env,valuefile,abslog reach=started,end desc="progress step P5 after a leadership transfer that times out: membership actions are held back while a transfer is in progress; when the transfer timer fires (leader.onTransferTimeout) the transfer task fails with a timeout error and a pending action that needs nothing else (demote/force-remove of a follower) is started in that very step - nothing else would re-evaluate it in an idle cluster" bounds="2..3 nodes, the follower carries Demote or ForceRemove, own-term entry committed, transfer in progress"
+func VH_C17_pending_action_after_transfer_timeout() {
+	n := 2 + vChoice(2)
+	r, l, a := vMkLeader(n, 2, false)
+	cfg := r.configs.Latest
+	vAssume(r.nid == 1 && l.node.Voter && l.node.Action == None)
+	nd2 := cfg.Nodes[2]
+	vAssume(vOr(vAnd(nd2.Voter, nd2.Action == Demote), nd2.Action == ForceRemove))
+	if n == 3 {
+		nd3 := cfg.Nodes[3]
+		vAssume(nd3.Action == None)
+	}
+	r.configs.Committed = cfg
+	vAssume(r.commitIndex >= l.startIndex && cfg.Index <= r.commitIndex)
+	_ = a
+	tr := transferLdr{task: newTask(), timeout: 1000}
+	l.transfer.timer.active = true
+	l.transfer.transferLdr = tr
+	l.transfer.term = r.term
+	vWatchConfigAppends(r, l)
+	vAssert(!l.canChangeConfig(), "P5-not-permitted-while-a-transfer-is-in-progress")
+	// stateLoop's transfer-timer arm: l.transfer.timer.active = false; l.onTransferTimeout()
+	l.transfer.timer.active = false
+	l.onTransferTimeout()
+	vAssert(isClosed(tr.Done()) && tr.Err() != nil, "T-timed-out-transfer-fails-with-an-error")
+	vAssert(!l.transfer.inProgress() && r.state == Leader, "T-leader-keeps-leading-after-the-timeout")
+	vAssert(len(vCfgAppends) >= 1, "P5-pending-action-started-when-the-transfer-times-out")
+	if len(vCfgAppends) >= 1 {
+		vReach("started")
+		nn, still := vCfgAppends[0].conf.Nodes[2]
+		vAssert(!still || !nn.Voter, "P5-the-action-is-the-pending-one")
+	}
+	vCheckConfigAppends("P5t", true)
 	vReach("end")
 }
